@@ -30,6 +30,7 @@ def handlers : List (String × Handler) :=
   |>.cons ("c05sfnt", C05.handleSfnt)
   |>.cons ("c05font", C05.handleFont)
   |>.cons ("c03e2e", C03.handle)
+  |>.cons ("c03glyphs", C03.handle)
   |>.cons ("c04e2e", C04.handle)
   |>.cons ("c04adv", C04.handle)
   |>.cons ("c14names", C14.handleNames)
